@@ -31,7 +31,20 @@ func C03(c *Ctx) int {
 	if err := c.TokenGameRound(fs, loops, RoundOpts{Label: "reentry", MaxSteps: 30, Simulate: sim}); err != nil {
 		c.Infraf("%v", err)
 	}
-	c.Extra["programs"] = len(once) + len(loops)
+	// back-to-back activations: k tokens per incoming flow arrive in one burst
+	var bursts []*prog.Program
+	for n := 1; n <= 3; n++ {
+		for m := 1; m <= 3; m++ {
+			for k := 2; k <= 3; k++ {
+				bursts = append(bursts, gen.ParallelBurst(n, m, k))
+			}
+		}
+	}
+	if err := c.TokenGameRound(fs, bursts, RoundOpts{Label: "burst", MaxSteps: 10, Simulate: 150, MaxPerProg: 10,
+		Job: JobOpts{Perturb: 9, HoldPoints: []string{"and.arrive", "flow.action", "flow.flowtrace", "tracer.take"}}}); err != nil {
+		c.Infraf("%v", err)
+	}
+	c.Extra["programs"] = len(once) + len(loops) + len(bursts)
 	c.Assumptions = append(c.Assumptions, "upstream tokens reach the gateway in the order their tasks are answered only up to goroutine scheduling; the property must hold for every order, so this is not an assumption of the verdict")
 	return c.Finish("model_checking", "all N x M in 1..4: TLC enumerates every order of answering the N upstream and M downstream tasks (single activation, exhaustive in thorough tier, capped sample in quick) and simulates 1..3 re-entries through a loop; every schedule replayed on the real engine and validated by TokenGameTrace", !c.Quick(), fs)
 }
